@@ -51,7 +51,7 @@ let gen_dump st env : item list =
 let gen_program (st : st) : program =
   Idioms.tag := 0;
   gen_records st;
-  let env0 = { vars = []; lvl = 0; mult = 1; budget = w st "budget_fn"; block = []; forbid = IS.empty;
+  let env0 = { vars = []; lvl = 0; mult = 1; budget = w st "budget_fn"; block = []; forbid = IS.empty; sib = IS.empty;
                loopd = 0; recf = None } in
   let nf = Rng.range st.rng (w st "nfuncs_min") (w st "nfuncs_max") in
   let rec mkfuncs env k acc =
@@ -62,7 +62,7 @@ let gen_program (st : st) : program =
   let env, funcs = mkfuncs env0 nf [] in
   (* main *)
   let ret = if pct st "main_bool" then TBool else TInt in
-  let env_m = { env with lvl = 1; budget = w st "budget_main"; block = []; forbid = IS.empty } in
+  let env_m = { env with lvl = 1; budget = w st "budget_main"; block = []; forbid = IS.empty; sib = IS.empty } in
   st.cost <- 0;
   let idioms = List.concat (List.map (fun (name, f) ->
       List.concat (List.init (max 1 (w st "id_repeat")) (fun _ -> if pct st name then [`Idiom f] else []))) Idioms.all) in
@@ -77,12 +77,13 @@ let gen_program (st : st) : program =
           | ILet (x, _) | IVar (x, _) -> [int_of_n x] | IFunc fd -> [int_of_n (fd_name fd)] | IExpr _ -> []) its) in
       let env' = { env' with block = List.filter (fun x -> not (List.mem x env'.block)) bound @ env'.block } in
       let env' = if w st "late_shadow" > 0 then env' else
-          { env' with forbid = List.fold_left (fun s it -> IS.union s (Uniq.closure_free_of_item it)) env'.forbid its } in
+          { env' with forbid = List.fold_left (fun s it -> IS.union s (late_forbidden env (Uniq.closure_free_of_item it))) env'.forbid its } in
+      let env' = { env' with sib = sib_after env its } in
       (env', List.rev_append its acc)) (env_m, []) plan in
   let dump = if pct st "dump" then gen_dump st env_m else [] in
   let res, _ = gen_expr st env_m ret (min d 3) ~op:false in
   let body = List.rev items @ dump @ [IExpr res] in
-  let catches, call = gen_catches st { env with lvl = 1; budget = 100; block = []; forbid = IS.empty } ret 1 in
+  let catches, call = gen_catches st { env with lvl = 1; budget = 100; block = []; forbid = IS.empty; sib = IS.empty } ret 1 in
   let main = FDef (n_of_int 0, [], ret, body, catches, call) in
   { p_recs = List.map (fun (r, tys) -> (n_of_int r, tys)) st.recs;
     p_funcs = funcs @ List.rev st.top @ [main];
